@@ -196,11 +196,6 @@ func init() {
 					x.Bad("C15", "spi-not-released", "%s(h%d) is still blocked although the node was told to leave that height", c.Kind, c.Height)
 				}
 			}
-			for _, i := range n.Sent {
-				if i.Kind == ref.KP && i.Hdr.Height == 1 {
-					x.Bad("C15", "acted-on-cancelled-validation", "PREPARE for height 1 sent although its validation returned under a cancelled context")
-				}
-			}
 			checkSyncRounds(x, n)
 		}
 		finish(x, n, nil, "")
@@ -322,6 +317,79 @@ func init() {
 			}
 			if h := uint64(n.M.State().Height()); h != 4 {
 				x.Bad("C14", "newest-sync-not-effective", "UpdateState(block 3) returned nil but the node ends at height %d (events %v)", h, tail(n.Events, 8))
+			}
+		}
+		finish(x, n, nil, "")
+	})
+
+	// S-stale-events: the node leads (h1,v0) and sits in RequestNewBlockProposal; only STALE events arrive (a repeated
+	// genesis sync, messages of a past height). The context of the current position must stay live: the call
+	// must still be waiting at quiescence, and nothing may restart the round (C15 third clause, C14 stale syncs).
+	registerBoth("S-stale-events", []string{"C15", "C14"}, 0, 3, 4, func(x *X, cancel bool) {
+		n := newNode(x, 0)
+		n.BlockReq[1] = true
+		n.Boot()
+		s := x.S
+		done := 0
+		s.Thread("stale-sync", func() {
+			n.M.UpdateState(n.Ctx, nil, nil)
+			done++
+			n.M.UpdateState(n.Ctx, nil, nil)
+			done++
+		})
+		old := n.peerMsgsAfter(0, "OLD", nil)
+		s.Thread("stale-msgs", func() {
+			n.M.HandleConsensusMessage(n.Ctx, old[0])
+			n.M.HandleConsensusMessage(n.Ctx, old[1])
+		})
+		addCancel(n, cancel)
+		if !s.Run(20000) {
+			x.Bad("C16", "livelock", "step horizon reached")
+		}
+		if !cancel {
+			if done != 2 {
+				x.Bad("C14", "updatestate-blocked-or-failed", "stale UpdateState calls did not return (%d of 2); blocked=%v", done, s.Blocked())
+			}
+			for _, c := range n.SpiCalls {
+				if c.Kind == "request" && c.Height == 1 && (c.Returned || c.Ctx.Err() != nil) {
+					x.Bad("C15", "current-context-cancelled-by-stale-event", "the context of RequestNewBlockProposal(h1,v0) was cancelled although only stale syncs and past-height messages arrived (events %v)", tail(n.Events, 6))
+				}
+			}
+			if len(n.Rounds) != 1 {
+				x.Bad("C14", "stale-sync-changed-state", "stale syncs restarted the round: new-round callbacks %v", n.Rounds)
+			}
+		}
+		finish(x, n, nil, "")
+	})
+
+	// S-validate-vs-election: the follower's worker sits in ValidateBlockProposal of (h1,v0) when the election timer
+	// fires: the main loop must cancel that context, the late validation result must not produce a PREPARE in view 0,
+	// and the node must move to view 1 (C15, C19).
+	registerBoth("S-validate-vs-election", []string{"C15", "C19"}, 1, 3, 4, func(x *X, cancel bool) {
+		n := newNode(x, 2)
+		n.BlockVal[1] = true
+		n.Boot()
+		msgs := n.peerMsgs(1, "B1")
+		feed(n, msgs[:1])
+		s := x.S
+		late := n.peerMsgs(1, "B1")[1:]
+		s.Thread("feeder", func() {
+			for _, m := range late[:2] {
+				n.M.HandleConsensusMessage(n.Ctx, m)
+			}
+		})
+		addCancel(n, cancel)
+		if !s.Run(20000) {
+			x.Bad("C16", "livelock", "step horizon reached")
+		}
+		if !cancel && s.Fires >= 1 {
+			for _, c := range n.SpiCalls {
+				if c.Kind == "validate" && !c.Returned {
+					x.Bad("C15", "spi-not-released", "ValidateBlockProposal(h1) still blocked after the election timeout of its view fired")
+				}
+			}
+			if v := uint64(n.M.State().View()); v != 1 {
+				x.Bad("C19", "trigger-lost", "the election timer of (h1,v0) expired but the node is in view %d (events %v)", v, tail(n.Events, 6))
 			}
 		}
 		finish(x, n, nil, "")
